@@ -38,13 +38,14 @@ func limitf(format string, a ...interface{}) {
 }
 
 type Engine struct {
-	pkg   *packages.Package
-	fset  *token.FileSet
-	info  *types.Info
-	spec  *SpecFile
-	sorts *Sorts
-	funcs map[string]*ast.FuncDecl // key -> decl
-	fobjs map[*types.Func]string   // func object -> key
+	baseLocals map[string][]string // function -> "name|type" of its locals on the recorded baseline
+	pkg        *packages.Package
+	fset       *token.FileSet
+	info       *types.Info
+	spec       *SpecFile
+	sorts      *Sorts
+	funcs      map[string]*ast.FuncDecl // key -> decl
+	fobjs      map[*types.Func]string   // func object -> key
 
 	ufs       map[string]string // name -> declaration
 	ufOrder   []string
@@ -135,6 +136,7 @@ type FuncCtx struct {
 	callOrd       map[*ast.CallExpr]int
 	inAtCall      bool
 	atLit         map[*Clause]*ast.CallExpr
+	renames       map[string]string // baseline local name -> current name (pure renaming)
 	specPostDepth int
 	loopEntry     *State
 	coveredLoops  map[int]bool
@@ -616,4 +618,62 @@ func (v *Val) forAssume() string {
 		return v.SA
 	}
 	return v.S
+}
+
+// localsOf lists the parameters, results and local variables of a function in
+// declaration order, each as "name|type".
+func (e *Engine) localsOf(fd *ast.FuncDecl) []string {
+	var out []string
+	seen := map[*types.Var]bool{}
+	q := func(p *types.Package) string { return p.Name() }
+	add := func(id *ast.Ident) {
+		if id == nil || id.Name == "_" {
+			return
+		}
+		if v, ok := e.info.Defs[id].(*types.Var); ok && v != nil && !seen[v] {
+			seen[v] = true
+			out = append(out, id.Name+"|"+types.TypeString(v.Type(), q))
+		}
+	}
+	ast.Inspect(fd, func(x ast.Node) bool {
+		if id, ok := x.(*ast.Ident); ok {
+			add(id)
+		}
+		return true
+	})
+	return out
+}
+
+// renamesFor: if the function has exactly the locals recorded on the baseline -
+// same number, same types, in the same order - but some carry other names, the
+// contract (which names locals in its loop invariants) is read with the old
+// names mapped to the new ones.  Anything else (a local added, removed,
+// retyped) gives no mapping.
+func (e *Engine) renamesFor(key string, fd *ast.FuncDecl) map[string]string {
+	old, ok := e.baseLocals[key]
+	if !ok {
+		return nil
+	}
+	cur := e.localsOf(fd)
+	if len(cur) != len(old) {
+		return nil
+	}
+	m := map[string]string{}
+	for i := range cur {
+		on, ot, _ := strings.Cut(old[i], "|")
+		cn, ct, _ := strings.Cut(cur[i], "|")
+		if ot != ct {
+			return nil
+		}
+		if on != cn {
+			if prev, dup := m[on]; dup && prev != cn {
+				return nil // one old name, two new names (shadowing): ambiguous
+			}
+			m[on] = cn
+		}
+	}
+	if len(m) == 0 {
+		return nil
+	}
+	return m
 }
